@@ -490,7 +490,7 @@ def replay(data):
 
 def run(tier, seed):
     t0 = time.time()
-    depth = 9 if tier == 'quick' else 11
+    depth = 9 if tier == 'quick' else 10
     viol = []
     cov = {'parts': {}}
     states = transitions = 0
@@ -502,7 +502,7 @@ def run(tier, seed):
         for n in (1, 2, 3):
             for ntags in (1, 2, 3):
                 d = depth if ntags < 3 else depth - 2
-                r = window_bfs(n, ntags, d, deadline=t0 + (60 if tier == 'quick' else 900))
+                r = window_bfs(n, ntags, d, deadline=t0 + (60 if tier == 'quick' else 300))
                 states += r.states
                 transitions += r.transitions
                 cov['parts'][f'window n={n} tags={ntags}'] = {
@@ -539,7 +539,7 @@ def run(tier, seed):
             viol.append({'sig': 'C12:crt:' + v['sig'].split(':', 1)[1], 'msg': v['msg'], 'replay': v['replay']})
     # (b) schedules
     cfgs = sched_configs(tier)
-    jobs = [(c, 2 if tier == 'quick' else 3, 400000 if tier == 'quick' else 1500000) for c in cfgs]
+    jobs = [(c, 2, 400000 if tier == 'quick' else 600000) for c in cfgs]   # thorough: more and larger configurations, same preemption bound
     res = explore.run_jobs(_sched_job, jobs)
     tot = explore.Stats()
     for cfg, st in res:
